@@ -26,6 +26,9 @@ const INT_POOL: [&str; 10] = ["0", "1", "-1", "9223372036854775807", "-922337203
 const REAL_POOL: [&str; 14] = ["0.0", "-0.0", "1.5", "-1.5", "inf", "-inf", "NaN", "5e-324", "1e308", "-1e308", "2.0", "9007199254740993.0", "0.1", "42.0"];
 const TEXT_POOL: [&str; 12] = ["", "a", "ab", "b", "B", "é", "z", "😀", "a ", "10", "9", "A"];
 const TS_POOL: [&str; 6] = ["2021-03-04 05:06:07", "2021-03-04 05:06:08", "1999-12-31 23:59:59", "2021-03-04 05:06:06", "2038-01-19 03:14:08", "1970-01-01 00:00:00"];
+/// instants with microseconds (multi-group TIMESTAMP column with the MICROSECONDS modifier)
+const TSUS_POOL: [&str; 8] = ["2021-03-04 05:06:07.000100", "2021-03-04 05:06:07.000200", "2021-03-04 05:06:07.000999", "2021-03-04 05:06:07.001000", "2021-03-04 05:06:07.000000", "2021-03-04 05:06:08.000000", "1999-12-31 23:59:59.999999", "2021-03-04 05:06:07.001001"];
+const ARR_POOL: [&str; 10] = ["[1]", "[1, 1]", "[1, 1, 5]", "[2]", "[]", "[1, 2]", "[-1]", "[9223372036854775807]", "[1, 1, 5, 0]", "[1,1]"];
 const IV_POOL: [&str; 7] = ["0:00:00", "0:00:01", "1:00:00", "0:60:00", "25:00:00", "0:59:60", "0:00:60"];
 
 fn pool(ty: &str) -> &'static [&'static str] {
@@ -34,11 +37,13 @@ fn pool(ty: &str) -> &'static [&'static str] {
         "REAL" => &REAL_POOL,
         "TEXT" => &TEXT_POOL,
         "TIMESTAMP" => &TS_POOL,
+        "INT[]" => &ARR_POOL,
+        "TIMESTAMP_US" => &TSUS_POOL,
         _ => &IV_POOL,
     }
 }
 
-const TYPES: [&str; 5] = ["INT", "REAL", "TEXT", "TIMESTAMP", "INTERVAL"];
+const TYPES: [&str; 7] = ["INT", "REAL", "TEXT", "TIMESTAMP", "INTERVAL", "INT[]", "TIMESTAMP_US"];
 
 fn parse_value(ty: &str, text: &str) -> Option<V> {
     match ty {
@@ -47,6 +52,15 @@ fn parse_value(ty: &str, text: &str) -> Option<V> {
         "TEXT" => Some(V::Text(text.to_string())),
         "TIMESTAMP" => crate::eval::parse_timestamp(text).map(V::Ts),
         "INTERVAL" => crate::eval::parse_interval(text).map(V::Iv),
+        "TIMESTAMP_US" => {
+            let (whole, frac) = text.split_once('.')?;
+            let micros: i64 = frac.parse().ok()?;
+            crate::eval::parse_timestamp(whole).map(|t| V::Ts(t + micros))
+        }
+        "INT[]" => match parse_json(text) {
+            Ok(J::Arr(items)) => items.iter().map(|i| if let J::Num(n) = i { n.parse::<i64>().ok().map(V::Int) } else { None }).collect::<Option<Vec<V>>>().map(V::Array),
+            _ => None,
+        },
         _ => None,
     }
 }
@@ -56,6 +70,8 @@ fn special(ty: &str, text: &str) -> bool {
         "INT" => text.len() > 10,
         "REAL" => matches!(text, "0.0" | "-0.0" | "inf" | "-inf" | "NaN" | "5e-324" | "1e308" | "-1e308"),
         "TEXT" => text.is_empty() || !text.is_ascii(),
+        "INT[]" => text == "[]" || text.contains(','),
+        "TIMESTAMP_US" => !text.ends_with(".000000"),
         _ => matches!(text, "0:60:00" | "0:59:60" | "0:00:60" | "1970-01-01 00:00:00"),
     }
 }
@@ -226,11 +242,29 @@ impl Property for C16 {
         }
 
         let ty = case.ty.as_str();
-        let defs = format!(
-            "CREATE TABLE t(line = '^a=([^;]*);b=([^;]*);c=([^;]*);', line[1] => a {ty}, line[2] => b {ty}, line[3] => c {ty}); \
-             CREATE TABLE t2(line = '^k=([^;]*);', line[1] => k {ty}); CREATE TABLE u2(line = '^k=([^;]*);', line[1] => k {ty});",
-            ty = ty
-        );
+        // arrays of different lengths come from JSON documents, everything else from text fields
+        let is_array = ty == "INT[]";
+        let us_group = "([0-9]+)-([0-9]+)-([0-9]+) ([0-9]+):([0-9]+):([0-9]+)[.]([0-9]+)";
+        let us_refs = |from: usize| (from..from + 7).map(|i| format!("line[{}]", i)).collect::<Vec<_>>().join(", ");
+        let defs = if ty == "TIMESTAMP_US" {
+            format!(
+                "CREATE TABLE t(line = '^a={g};b={g};c={g};', {a} => a TIMESTAMP MICROSECONDS, {b} => b TIMESTAMP MICROSECONDS, {c} => c TIMESTAMP MICROSECONDS); \
+                 CREATE TABLE t2(line = '^k={g};', {a} => k TIMESTAMP MICROSECONDS); CREATE TABLE u2(line = '^k={g};', {a} => k TIMESTAMP MICROSECONDS);",
+                g = us_group,
+                a = us_refs(1),
+                b = us_refs(8),
+                c = us_refs(15)
+            )
+        } else if is_array {
+            "CREATE TABLE t({ .a } => a INT[], { .b } => b INT[], { .c } => c INT[]); CREATE TABLE t2({ .k } => k INT[]); CREATE TABLE u2({ .k } => k INT[]);".to_string()
+        } else {
+            format!(
+                "CREATE TABLE t(line = '^a=([^;]*);b=([^;]*);c=([^;]*);', line[1] => a {ty}, line[2] => b {ty}, line[3] => c {ty}); \
+                 CREATE TABLE t2(line = '^k=([^;]*);', line[1] => k {ty}); CREATE TABLE u2(line = '^k=([^;]*);', line[1] => k {ty});",
+                ty = ty
+            )
+        };
+        let key_line = |k: &str| if is_array { format!("{{\"k\": {}}}", k) } else { format!("k={};", k) };
         let va = parse_value(ty, &case.a);
         let vb = parse_value(ty, &case.b);
         let vc = parse_value(ty, &case.c);
@@ -245,11 +279,14 @@ impl Property for C16 {
         let describe = format!("type {} a={:?} b={:?} c={:?}", ty, case.a, case.b, case.c);
 
         // facts
-        let q1 = "SELECT (a < b) AS lt, (a = b) AS eq, (a > b) AS gt, (a <= b) AS le, (a >= b) AS ge, (a != b) AS ne, (b < a) AS rlt, (b = a) AS req, (b > a) AS rgt, \
+        let q1_all = "SELECT (a < b) AS lt, (a = b) AS eq, (a > b) AS gt, (a <= b) AS le, (a >= b) AS ge, (a != b) AS ne, (b < a) AS rlt, (b = a) AS req, (b > a) AS rgt, \
                   (b <= c) AS le_bc, (a <= c) AS le_ac, (b = c) AS eq_bc, (a = c) AS eq_ac, (a = a) AS refl, (b < c) AS lt_bc, (a < c) AS lt_ac, \
                   array_length(array_unique(array[a, b])) AS nu, (a IN (b, b)) AS in_b, \
                   array_length(array_unique(array[a, NULL, a])) AS nu_null, array_length(array_unique(array[b, a, NULL, a, b])) AS nu_null2 FROM t";
-        let line = format!("a={};b={};c={};", case.a, case.b, case.c);
+        // (array_unique over an array of arrays is not part of the documented functions: left out for the array type)
+        let q1_owned = if is_array { q1_all.replace("array_length(array_unique(array[a, b])) AS nu", "1 AS nu").replace("array_length(array_unique(array[a, NULL, a])) AS nu_null, array_length(array_unique(array[b, a, NULL, a, b])) AS nu_null2", "1 AS nu_null, 1 AS nu_null2") } else { q1_all.to_string() };
+        let q1 = q1_owned.as_str();
+        let line = if is_array { format!("{{\"a\": {}, \"b\": {}, \"c\": {}}}", case.a, case.b, case.c) } else { format!("a={};b={};c={};", case.a, case.b, case.c) };
         let out = one(&defs, q1, &[line])?;
         if va.is_none() || vb.is_none() || vc.is_none() {
             // a field is not a literal of the type: NULL column, nothing to observe
@@ -294,6 +331,7 @@ impl Property for C16 {
             }
         }
         // array_unique and IN agree with `=`
+        if !is_array {
         match f.get("nu") {
             Some(J::Num(n)) => {
                 if (n == "1") != eq {
@@ -302,11 +340,12 @@ impl Property for C16 {
             }
             other => return fail("array_unique-vs-equality", format!("{} | array_length gave {:?}", facts, other)),
         }
+        }
         if g("in_b")? != eq {
             return fail("in-vs-equality", facts);
         }
         // a NULL element between equal elements must not keep them apart (NULL itself may or may not be kept)
-        for (key, distinct) in [("nu_null", 1u64), ("nu_null2", if eq { 1 } else { 2 })] {
+        for (key, distinct) in [("nu_null", 1u64), ("nu_null2", if eq { 1 } else { 2 })].into_iter().filter(|_| !is_array) {
             match f.get(key) {
                 Some(J::Num(n)) if n.parse::<u64>().map(|n| n == distinct || n == distinct + 1).unwrap_or(false) => {}
                 other => return fail("array_unique-with-null", format!("{} | {} = {:?}, but the array has {} distinct non-NULL value(s) and one NULL", facts, key, other, distinct)),
@@ -314,7 +353,7 @@ impl Property for C16 {
         }
 
         // consumers: GROUP BY, DISTINCT, COUNT(DISTINCT), MIN/MAX, PERCENTILE, JOIN over the key sequence a, b, a
-        let keys = vec![format!("k={};", case.a), format!("k={};", case.b), format!("k={};", case.a)];
+        let keys = vec![key_line(&case.a), key_line(&case.b), key_line(&case.a)];
         let groups_q = "SELECT k, COUNT(*) AS n FROM t2 GROUP BY k";
         let go = one(&defs, groups_q, &keys)?;
         if let Err(e) = &go.result {
@@ -349,7 +388,7 @@ impl Property for C16 {
             return fail("count-distinct-vs-equality", format!("{} | COUNT(DISTINCT) over a, b, a = {:?}", facts, cf.get("n")));
         }
         // MIN / MAX / PERCENTILE do not depend on the order of arrival
-        let keys_rev = vec![format!("k={};", case.b), format!("k={};", case.a), format!("k={};", case.a)];
+        let keys_rev = vec![key_line(&case.b), key_line(&case.a), key_line(&case.a)];
         let c2 = one(&defs, cq, &keys_rev)?;
         let cf2 = first_obj(&c2, cq)?;
         for key in ["lo", "hi", "p0", "p1"] {
@@ -370,9 +409,9 @@ impl Property for C16 {
         }
         // join: a (queried) with b (joined file)
         let jpath = ctx.file("c16-joined.txt");
-        write_file(&jpath, format!("k={};\n", case.b).as_bytes());
+        write_file(&jpath, format!("{}\n", key_line(&case.b)).as_bytes());
         let jq = format!("SELECT t2.k FROM t2 INNER JOIN u2::{} ON t2.k = u2.k", quote(&jpath.to_string_lossy()));
-        let j = one(&defs, &jq, &[format!("k={};", case.a)])?;
+        let j = one(&defs, &jq, &[key_line(&case.a)])?;
         if j.result.is_err() {
             return fail("join-error", format!("{} | {:?}", facts, j.result));
         }
